@@ -92,6 +92,12 @@ def catalogue():
         "if-call-nonlocal-first-arg": mv + [A.iff(([A.cond("bool", A.call("eq", v("fmv"), s("ab")))], [A.node(v("f_n"))]))],
         "let-of-call-nonlocal-first-arg": mv + [A.let(v("f_k"), A.call("format", s("{}{}"), v("fmv"), s("z"))), A.scan(v("f_k"), ("a", [A.node(v("f_n"))]))],
         "for-list-of-call-nonlocal-first-arg": mv + [A.forin("f_x", A.lst(A.call("format", s("{}{}"), v("fmv"), s("z"))), [A.node(v("f_n"))])],
+        # every parameter of a call is checked, also those after a non-local one
+        "undefined-in-later-call-arg": mv + [A.let(v("f1"), A.call("format", s("{}{}"), v("fmv"), v("f_undefined")))],
+        "undefined-after-scoped-call-arg": [A.let(v("f1"), A.call("plus", A.svar(A.cap("__ANYCAP__"), "f_sv"), v("f_undefined")))],
+        "undefined-capture-in-later-call-arg": [A.let(v("f1"), A.call("format", s("{}{}"), A.svar(A.cap("__ANYCAP__"), "f_sv"), A.cap("f_nocap")))],
+        "out-of-scope-in-later-call-arg": mv + [A.iff(([A.cond("bool", A.true())], [A.let(v("f_inner"), i(1))])), A.let(v("f2"), A.call("plus", v("fmv"), i(1), v("f_inner")))],
+        "nested-call-undefined-after-nonlocal": mv + [A.let(v("f1"), A.lst(A.call("concat", A.lst(v("fmv")), A.call("concat", v("fmv"), A.lst(v("f_undefined"))))))],
         "var-used-before-later-set": [A.mut(v("f_l"), A.lst(i(1))), A.forin("f_o", A.lst(i(1), i(2)), [A.forin("f_x", v("f_l"), [A.node(v("f_n"))]), A.assign(v("f_l"), A.lst(i(3)))])],
         "scan-scoped": [A.scan(A.svar(A.cap("__ANYCAP__"), "f_sv"), ("a", [A.node(v("f_n"))]))],
         "if-mutable": [A.mut(v("f_b"), A.true()), A.iff(([A.cond("bool", v("f_b"))], [A.node(v("f_n"))]))],
@@ -120,7 +126,7 @@ def catalogue():
     }
 
 
-FILE_LEVEL = ["duplicate-global", "unused-capture", "underscore-capture-unused-ok", "capture-in-shorthand", "shorthand-ok",
+FILE_LEVEL = ["duplicate-global", "unused-capture", "underscore-capture-unused-ok", "capture-used-only-in-later-call-arg-ok", "capture-in-shorthand", "shorthand-ok",
               "capture-in-shorthand-direct", "capture-in-shorthand-set", "capture-in-shorthand-listc-elem", "capture-in-shorthand-listc-value",
               "capture-in-shorthand-setc-elem", "capture-in-shorthand-setc-value", "capture-in-shorthand-scope", "capture-in-shorthand-call",
               "capture-in-shorthand-nested", "capture-in-second-shorthand-attr"]
@@ -131,6 +137,9 @@ def apply_file_level(prog, name):
         prog["globals"].append(A.glob("GG", "opt"))
     elif name == "unused-capture":
         prog["stanzas"].append(A.stanza("(identifier) @f_unused ", [A.node(A.var("f_n"))]))
+    elif name == "capture-used-only-in-later-call-arg-ok":
+        # the only use of the capture is a later parameter of a call whose first parameter is non-local
+        prog["stanzas"].append(A.stanza("(identifier) @f_onlyuse ", [A.mut(A.var("f_m"), A.string("x")), A.let(A.var("f_k"), A.call("format", A.string("{}{}"), A.var("f_m"), A.cap("f_onlyuse")))]))
     elif name == "underscore-capture-unused-ok":
         prog["stanzas"].append(A.stanza("(identifier) @_f_unused ", [A.node(A.var("f_n"))]))
     elif name == "capture-in-shorthand":
@@ -267,8 +276,8 @@ def run(tier):
             V.violation(c["id"], payload, {"observed": "panic"})
             continue
         # generator sanity (OneFaultOneVerdict on the model side): faults are rejected by the specification, neighbours accepted
-        if fault.startswith("none") or fault.startswith("ok-") or fault in ("underscore-capture-unused-ok", "shorthand-ok"):
-            if not v["ok"] and fault in ("none", "ok-shadow-in-nested-block", "ok-for-over-list-global", "ok-scan-of-call-of-locals",
+        if fault.startswith("none") or fault.startswith("ok-") or fault in ("underscore-capture-unused-ok", "shorthand-ok", "capture-used-only-in-later-call-arg-ok"):
+            if not v["ok"] and fault in ("capture-used-only-in-later-call-arg-ok", "none", "ok-shadow-in-nested-block", "ok-for-over-list-global", "ok-scan-of-call-of-locals",
                                           "ok-set-mutable-in-nested", "ok-runtime-empty-regex", "underscore-capture-unused-ok", "shorthand-ok"):
                 raise C.ToolError("the specification rejects a file built to be valid (%s): %s" % (fault, v))
         elif v["ok"] and not c["id"].startswith("c06gf"):
